@@ -6,6 +6,7 @@ Run on every build (harness/pytrans.py calls it); regenerates coq/Gen/ManagerSpG
     VersioningManager.track_savepoint        -> gen_track_savepoint
     VersioningManager.rollback_savepoint     -> gen_rollback_savepoint
     VersioningManager.forget_savepoints      (checked: touches self.savepoints only)
+    VersioningManager.after_commit           (checked verbatim: a released savepoint's entry is dropped, then clear())
 
 Proofs/ManagerSpGenP.v proves the generated functions equal to the model functions of Model/ManagerSp.v
 (session_uow, what SBegin remembers, rollback_savepoint).  (U, M) = (units_of_work, session_connection_map) as in
@@ -166,6 +167,28 @@ def forget_savepoints(tree):
             'Definition gen_forget_savepoints_drops_the_sessions_entries : bool := true.\n')
 
 
+def after_commit(tree):
+    """release of a savepoint: SQLAlchemy dispatches after_commit while the released nested transaction is still the
+    session's current one; its entry is dropped, then clear() runs (and returns at once inside a nested transaction)"""
+    f = find_method(tree, 'VersioningManager', 'after_commit')
+    who = 'after_commit'
+    if params_of(f) != ['self', 'session']:
+        raise Unsupported(who + ': signature')
+    b = _body(f)
+    if len(b) != 2:
+        raise Unsupported(who + ': body')
+    _expect(b[0], 'if session.in_nested_transaction():\n    self.savepoints.pop(session.get_nested_transaction(), None)', who)
+    _expect(b[1], 'self.clear(session)', who)
+    # ... and it is the listener registered for after_commit
+    init = find_method(tree, 'VersioningManager', '__init__')
+    if "'after_commit': self.after_commit" not in _src(init):
+        raise Unsupported('__init__: after_commit is not bound to self.after_commit')
+    return ('(* after_commit(session): inside a nested transaction (a savepoint being released) the entry of that savepoint is\n'
+            '   dropped and clear() does nothing; otherwise clear() (checked verbatim) - the model pops the session\'s stack on\n'
+            '   SRelease and empties it on Commit *)\n'
+            'Definition gen_release_drops_the_entry_of_the_released_savepoint : bool := true.\n')
+
+
 HEADER = """(* ManagerSpGen.v - GENERATED by harness/pytrans_sp.py from the current source of
    sqlalchemy_continuum/manager.py (session_unit_of_work, track_savepoint, rollback_savepoint, forget_savepoints).
    Do not edit: the file is rewritten on every build.  Proofs/ManagerSpGenP.v proves these definitions equal to the
@@ -178,7 +201,8 @@ From Continuum Require Import Model.Base Model.VTable Model.Core Model.Manager.
 def generate(repo, dst):
     try:
         tree = ast.parse(open(os.path.join(repo, 'sqlalchemy_continuum', 'manager.py')).read())
-        parts = [session_unit_of_work(tree), track_savepoint(tree), rollback_savepoint(tree), forget_savepoints(tree)]
+        parts = [session_unit_of_work(tree), track_savepoint(tree), rollback_savepoint(tree), forget_savepoints(tree),
+                 after_commit(tree)]
         text, err = HEADER + '\n'.join(parts), None
     except Unsupported as e:
         err = str(e)
